@@ -441,3 +441,217 @@ Section AssocExact.
   Lemma xIn_iff_aget (l : list (K * V)) k v : keys_ok eqb l -> (In (k, v) l <-> aget eqb l k = Some v).
   Proof. intros Hok. split; [apply keys_ok_aget; auto|apply xaget_In]. Qed.
 End AssocExact.
+(* ------------------------------------------------------------------------------------ *)
+(** * 3. Room maps *)
+
+Section AssocFacts2.
+  Context {K V : Type} (eqb : K -> K -> bool).
+  Implicit Types (l : list (K * V)) (k : K) (v : V).
+
+  (* an entry either survives an update or is the one a lookup finds, and is replaced *)
+  Lemma In_aset_fate l k v k' v' :
+    In (k', v') l ->
+    In (k', v') (aset eqb l k v) \/ (aget eqb l k = Some v' /\ eqb k' k = true /\ In (k', v) (aset eqb l k v)).
+  Proof.
+    induction l as [|[k0 v0] l IH]; cbn [aset aget]; [intros []|].
+    intros [[= -> ->]|Hin].
+    - destruct (eqb k' k) eqn:Ek; [right; repeat split; auto; left; reflexivity|left; left; reflexivity].
+    - destruct (eqb k0 k) eqn:Ek; [left; right; exact Hin|].
+      destruct (IH Hin) as [H|(H1 & H2 & H3)]; [left; right; exact H|right; repeat split; auto; right; exact H3].
+  Qed.
+
+  Lemma In_adel_fate l k k' v' :
+    In (k', v') l -> In (k', v') (adel eqb l k) \/ (aget eqb l k = Some v' /\ eqb k' k = true).
+  Proof.
+    induction l as [|[k0 v0] l IH]; cbn [adel aget]; [intros []|].
+    intros [[= -> ->]|Hin].
+    - destruct (eqb k' k) eqn:Ek; [right; auto|left; left; reflexivity].
+    - destruct (eqb k0 k) eqn:Ek; [left; exact Hin|].
+      destruct (IH Hin) as [H|H]; [left; right; exact H|right; exact H].
+  Qed.
+
+  (* a stored key is found by its own lookup, so the replaced entry keeps that very key *)
+  Lemma keys_ok_aset_stored l k v v0 : keys_ok eqb l -> In (k, v0) l -> In (k, v) (aset eqb l k v).
+  Proof.
+    induction l as [|[k1 v1] l IH]; cbn [keys_ok aset]; [intros _ []|].
+    intros (Hrefl & Hno & Hok) [[= -> ->]|Hin].
+    - rewrite Hrefl. left; reflexivity.
+    - rewrite (Hno k) by (apply in_map_iff; exists (k, v0); auto). right; auto.
+  Qed.
+
+  Lemma aset_keys_some l k v v0 : aget eqb l k = Some v0 -> map fst (aset eqb l k v) = map fst l.
+  Proof.
+    induction l as [|[k1 v1] l IH]; cbn [aget aset]; [discriminate|].
+    destruct (eqb k1 k); cbn [map fst]; [reflexivity|]. intros H. rewrite IH; auto.
+  Qed.
+
+  Lemma keys_ok_ext l l' : map fst l = map fst l' -> keys_ok eqb l -> keys_ok eqb l'.
+  Proof.
+    revert l'. induction l as [|[k1 v1] l IH]; intros [|[k2 v2] l']; cbn [map fst keys_ok]; try discriminate; auto.
+    intros [= -> Hm] (H1 & H2 & H3). rewrite <- Hm. repeat split; auto.
+  Qed.
+
+  Lemma keys_ok_aset_some l k v v0 : keys_ok eqb l -> aget eqb l k = Some v0 -> keys_ok eqb (aset eqb l k v).
+  Proof. intros Hok Hget. eapply keys_ok_ext; [symmetry; eapply aset_keys_some; eauto|exact Hok]. Qed.
+End AssocFacts2.
+
+Lemma py_eq_none_l x : py_eq PNone x = true -> x = PNone.
+Proof. destruct x; cbn; intros H; try discriminate; reflexivity. Qed.
+Lemma py_eq_none_r x : py_eq x PNone = true -> x = PNone.
+Proof. destruct x; cbn; intros H; try discriminate; try reflexivity; destruct b; discriminate. Qed.
+Lemma room_eqb_none_refl : room_eqb PNone PNone = true.
+Proof. reflexivity. Qed.
+Lemma room_eqb_none_frame room : room <> PNone -> forall k', room_eqb k' room = true -> room_eqb k' PNone = false.
+Proof.
+  intros Hne k' Hk. destruct (room_eqb k' PNone) eqn:E; [|reflexivity].
+  apply py_eq_none_r in E. subst. apply py_eq_none_l in Hk. contradiction.
+Qed.
+Lemma room_neq_none room : room <> PNone -> room_eqb room PNone = false.
+Proof. intros Hne. destruct (room_eqb room PNone) eqn:E; [|reflexivity]. apply py_eq_none_r in E. contradiction. Qed.
+
+Definition str_eqb_spec := str_eqb_eq.
+
+(* bidicts *)
+Lemma bd_inv_In b e s : bd_inv b e = Some s -> In (s, e) b.
+Proof.
+  induction b as [|[s0 e0] b IH]; cbn [bd_inv]; [discriminate|].
+  destruct (str_eqb e0 e) eqn:Ee.
+  - apply str_eqb_eq in Ee. subst. intros [= ->]. left; reflexivity.
+  - intros H. right; auto.
+Qed.
+Lemma bd_inv_None b e : bd_inv b e = None -> forall s, ~ In (s, e) b.
+Proof.
+  induction b as [|[s0 e0] b IH]; cbn [bd_inv]; [intros _ s []|].
+  destruct (str_eqb e0 e) eqn:Ee; [discriminate|].
+  intros H s [[= -> ->]|Hin]; [rewrite str_eqb_refl in Ee; discriminate|]. eapply IH; eauto.
+Qed.
+Lemma bd_inv_some b e s : In (s, e) b -> exists s', bd_inv b e = Some s'.
+Proof.
+  intros Hin. destruct (bd_inv b e) as [s'|] eqn:E; [eauto|]. exfalso. eapply bd_inv_None; eauto.
+Qed.
+
+(* membership of (sid, eio) in room [room] of a namespace's room map (stored key = room) *)
+Definition rmem (rm : roommap) (room : pv) (sid eio : str) : Prop :=
+  exists b, In (room, b) rm /\ In (sid, eio) b.
+Definition RmWf (rm : roommap) : Prop :=
+  keys_ok room_eqb rm /\ forall room b, In (room, b) rm -> b <> [] /\ keys_ok str_eqb b.
+
+Lemma rmem_none_iff rm sid eio : RmWf rm ->
+  (rmem rm PNone sid eio <-> exists b0, aget room_eqb rm PNone = Some b0 /\ bd_get b0 sid = Some eio).
+Proof.
+  intros [Hk Hb]. split.
+  - intros (b & Hin & Hs). exists b. split; [apply keys_ok_aget; auto|].
+    apply keys_ok_aget; auto. apply (Hb _ _ Hin).
+  - intros (b0 & H1 & H2). apply aget_In in H1 as (k' & Hin & Hk'). apply py_eq_none_r in Hk'. subst.
+    exists b0. split; [auto|]. apply (xaget_In _ str_eqb_eq) in H2. exact H2.
+Qed.
+
+Lemma RmWf_nil : RmWf [].
+Proof. split; [exact I|intros ? ? []]. Qed.
+
+(* adding (sid, eio) to the bidict of [room], creating the room if necessary *)
+Lemma rmem_put rm room b sid eio :
+  RmWf rm -> room_eqb room room = true ->
+  (aget room_eqb rm room = Some b \/ (aget room_eqb rm room = None /\ b = [])) ->
+  let rm' := aset room_eqb rm room (aset str_eqb b sid eio) in
+  RmWf rm' /\
+  (forall r s e, rmem rm' r s e ->
+                 rmem rm r s e \/ (s = sid /\ e = eio /\ (r = room \/ room_eqb r room = true))) /\
+  (forall r s e, rmem rm r s e -> s <> sid -> rmem rm' r s e) /\
+  (forall r s e, rmem rm r s e -> room_eqb r room = false -> rmem rm' r s e) /\
+  (exists r, (r = room \/ room_eqb r room = true) /\ rmem rm' r sid eio).
+Proof.
+  intros [Hk Hb] Hrefl Hget rm'.
+  assert (Hkb : keys_ok str_eqb b).
+  { destruct Hget as [Hget|[_ ->]]; [|exact I]. apply aget_In in Hget as (k' & Hin & _). apply (Hb _ _ Hin). }
+  split; [split|split; [|split; [|split]]].
+  - apply keys_ok_aset; auto.
+  - intros r b1 Hin. apply In_aset in Hin as [Hin|(-> & _)]; [apply (Hb _ _ Hin)|].
+    split; [apply aset_nonnil|apply (xkeys_ok_aset _ str_eqb_eq); auto].
+  - intros r s e (b1 & Hin & Hs). apply In_aset in Hin as [Hin|(-> & Hcase)]; [left; exists b1; auto|].
+    apply (xIn_aset _ str_eqb_eq) in Hs as [[-> ->]|[Hne Hs]]; auto.
+    + right. repeat split; auto. destruct Hcase as [(v0 & _ & _ & H)|[-> _]]; auto.
+    + left. destruct Hcase as [(v0 & H1 & H2 & _)|[_ Hn]].
+      * destruct Hget as [Hget|[Hget _]]; [|congruence]. assert (v0 = b) by congruence. subst. exists b; auto.
+      * destruct Hget as [Hget|[_ ->]]; [congruence|destruct Hs].
+  - intros r s e (b1 & Hin & Hs) Hne.
+    destruct (In_aset_fate room_eqb rm room (aset str_eqb b sid eio) r b1 Hin) as [H|(H1 & H2 & H3)].
+    + exists b1; auto.
+    + destruct Hget as [Hget|[Hget _]]; [|congruence]. assert (b1 = b) by congruence. subst.
+      exists (aset str_eqb b sid eio). split; [auto|]. apply In_aset_other; auto.
+      apply (eqb_neq _ str_eqb_eq). auto.
+  - intros r s e (b1 & Hin & Hs) Hne. exists b1. split; [|auto]. apply In_aset_other; auto.
+  - destruct (In_aset_new room_eqb rm room (aset str_eqb b sid eio)) as (k' & H1 & H2).
+    exists k'. split; [auto|]. exists (aset str_eqb b sid eio). split; [auto|].
+    apply (xaget_In _ str_eqb_eq). apply (xaget_aset_eq _ str_eqb_eq).
+Qed.
+
+(* the room-map part of basic_leave_room; None = nothing to do *)
+Definition rm_leave (rm : roommap) (sid : str) (room : pv) : option roommap :=
+  match aget room_eqb rm room with
+  | None => None
+  | Some b =>
+      match bd_get b sid with
+      | None => None
+      | Some _ =>
+          let b' := adel str_eqb b sid in
+          Some (match b' with [] => adel room_eqb rm room | _ => aset room_eqb rm room b' end)
+      end
+  end.
+
+Lemma rm_leave_spec rm sid room rm' :
+  RmWf rm -> rm_leave rm sid room = Some rm' ->
+  RmWf rm' /\
+  (forall r s e, rmem rm' r s e -> rmem rm r s e) /\
+  (forall r s e, rmem rm r s e -> s <> sid -> rmem rm' r s e) /\
+  (forall r s e, rmem rm r s e -> room_eqb r room = false -> rmem rm' r s e) /\
+  (forall e, ~ rmem rm' room sid e).
+Proof.
+  intros [Hk Hb]. unfold rm_leave.
+  destruct (aget room_eqb rm room) as [b|] eqn:Hget; [|discriminate].
+  destruct (bd_get b sid) as [e0|] eqn:Hsid; [|discriminate].
+  intros [= <-].
+  destruct (aget_In _ _ _ _ Hget) as (k0 & Hin0 & Hk0).
+  destruct (Hb _ _ Hin0) as [Hbne Hkb].
+  assert (Hgone : forall e, ~ In (sid, e) (adel str_eqb b sid)).
+  { apply (xaget_In _ str_eqb_eq) in Hsid. eapply keys_ok_adel_gone; eauto. }
+  destruct (adel str_eqb b sid) as [|x b'] eqn:Hb'.
+  - (* the room is removed *)
+    split; [split|split; [|split; [|split]]].
+    + apply keys_ok_adel; auto.
+    + intros r b1 Hin. apply In_adel in Hin. apply (Hb _ _ Hin).
+    + intros r s e (b1 & Hin & Hs). apply In_adel in Hin. exists b1; auto.
+    + intros r s e (b1 & Hin & Hs) Hne.
+      destruct (In_adel_fate room_eqb rm room r b1 Hin) as [H|[H1 H2]]; [exists b1; auto|].
+      assert (b1 = b) by congruence. subst. exfalso.
+      assert (Hin' : In (s, e) (adel str_eqb b sid)).
+      { apply In_adel_other; auto. apply (eqb_neq _ str_eqb_eq). auto. }
+      rewrite Hb' in Hin'. destruct Hin'.
+    + intros r s e (b1 & Hin & Hs) Hne. exists b1. split; [|auto]. apply In_adel_other; auto.
+    + intros e (b1 & Hin & Hs).
+      assert (Hin1 : In (room, b1) rm) by (eapply In_adel; eauto).
+      exact (keys_ok_adel_gone room_eqb rm room b1 Hk Hin1 b1 Hin).
+  - assert (Hnn : adel str_eqb b sid <> []) by (rewrite Hb'; discriminate).
+    rewrite <- Hb' in *. clear Hb' x b'.
+    split; [split|split; [|split; [|split]]].
+    + eapply keys_ok_aset_some; eauto.
+    + intros r b1 Hin. apply In_aset in Hin as [Hin|(-> & _)]; [apply (Hb _ _ Hin)|].
+      split; [exact Hnn|apply keys_ok_adel; auto].
+    + intros r s e (b1 & Hin & Hs). apply In_aset in Hin as [Hin|(-> & Hcase)]; [exists b1; auto|].
+      destruct Hcase as [(v0 & H1 & H2 & _)|[_ Hn]]; [|congruence].
+      assert (v0 = b) by congruence. subst. exists b. split; [auto|]. eapply In_adel; eauto.
+    + intros r s e (b1 & Hin & Hs) Hne.
+      destruct (In_aset_fate room_eqb rm room (adel str_eqb b sid) r b1 Hin) as [H|(H1 & H2 & H3)]; [exists b1; auto|].
+      assert (b1 = b) by congruence. subst. exists (adel str_eqb b sid). split; [auto|].
+      apply In_adel_other; auto. apply (eqb_neq _ str_eqb_eq). auto.
+    + intros r s e (b1 & Hin & Hs) Hne. exists b1. split; [|auto]. apply In_aset_other; auto.
+    + intros e (b1 & Hin & Hs).
+      assert (Hk' : keys_ok room_eqb (aset room_eqb rm room (adel str_eqb b sid))) by (eapply keys_ok_aset_some; eauto).
+      assert (Hin' := Hin).
+      apply In_aset in Hin as [Hin|(-> & _)]; [|eapply Hgone; eauto].
+      assert (b1 = b) by (apply (keys_ok_aget _ _ _ _ Hk) in Hin; congruence). subst.
+      assert (Hnew : In (room, adel str_eqb b sid) (aset room_eqb rm room (adel str_eqb b sid)))
+        by (eapply keys_ok_aset_stored; eauto).
+      assert (b = adel str_eqb b sid) by (eapply keys_ok_functional; eauto).
+      apply (Hgone e). congruence.
+Qed.
